@@ -10,7 +10,7 @@ use serde_json::json;
 const P: &str = "C08";
 
 #[cfg(feature = "ark")]
-mod arkp {
+pub mod arkp {
     use super::*;
     use ark_ec::{AffineRepr, CurveGroup};
     use ark_ff::Zero;
@@ -28,11 +28,29 @@ mod arkp {
             self.0.extend_from_slice(bytes);
         }
     }
+    /// records the *calls* made on the hasher (a word-oriented hasher such as FxHash or aHash treats
+    /// `write_u64(x)` and `write(&x.to_ne_bytes())` differently): the trace is appended to the byte record
+    #[derive(Default)]
+    pub struct CallRecorder(pub Vec<u8>);
+    impl Hasher for CallRecorder {
+        fn finish(&self) -> u64 { 0 }
+        fn write(&mut self, bytes: &[u8]) { self.0.push(b'B'); self.0.extend_from_slice(&(bytes.len() as u32).to_le_bytes()); self.0.extend_from_slice(bytes); }
+        fn write_u8(&mut self, i: u8) { self.0.push(b'1'); self.0.push(i); }
+        fn write_u16(&mut self, i: u16) { self.0.push(b'2'); self.0.extend_from_slice(&i.to_le_bytes()); }
+        fn write_u32(&mut self, i: u32) { self.0.push(b'4'); self.0.extend_from_slice(&i.to_le_bytes()); }
+        fn write_u64(&mut self, i: u64) { self.0.push(b'8'); self.0.extend_from_slice(&i.to_le_bytes()); }
+        fn write_u128(&mut self, i: u128) { self.0.push(b'X'); self.0.extend_from_slice(&i.to_le_bytes()); }
+        fn write_usize(&mut self, i: usize) { self.0.push(b'U'); self.0.extend_from_slice(&(i as u64).to_le_bytes()); }
+    }
     pub fn hashes_el(e: &El) -> (u64, Vec<u8>) {
         let mut h = std::collections::hash_map::DefaultHasher::new();
         e.hash(&mut h);
         let mut r = ByteRecorder::default();
         e.hash(&mut r);
+        let mut cr = CallRecorder::default();
+        e.hash(&mut cr);
+        r.0.extend_from_slice(b"|calls|");
+        r.0.extend_from_slice(&cr.0);
         (h.finish(), r.0)
     }
     pub fn hashes_af(e: &Af) -> (u64, Vec<u8>) {
@@ -40,6 +58,10 @@ mod arkp {
         e.hash(&mut h);
         let mut r = ByteRecorder::default();
         e.hash(&mut r);
+        let mut cr = CallRecorder::default();
+        e.hash(&mut cr);
+        r.0.extend_from_slice(b"|calls|");
+        r.0.extend_from_slice(&cr.0);
         (h.finish(), r.0)
     }
     /// hashes of containers holding the element (slices, Vec, arrays, tuples, Option): `Hash::hash_slice`
